@@ -351,7 +351,7 @@ static int name_port_make(const char *proto, const char *domain_name,
     int rc = snprintf(addr_s, capacity, "%s%c%s%c%d", proto, PROTO_SEP,
 		      domain_name, PORT_SEP, ntohs(port));
 
-    if (rc == capacity) {
+    if (rc >= capacity) {
 	errno = ENAMETOOLONG;
 	return -1;
     }
@@ -379,7 +379,7 @@ static int ip_port_make(const char *proto, const struct xcm_addr_ip *ip,
 	rc = snprintf(addr_s, capacity, "%s%c%c%s%c%c%d", proto, PROTO_SEP,
 		      IP6_BEGIN, ip_s, IP6_END, PORT_SEP, ntohs(port));
 
-    if (rc == capacity) {
+    if (rc >= capacity) {
 	errno = ENAMETOOLONG;
 	return -1;
     }
@@ -433,7 +433,7 @@ static int addr_make_ux_uxf(const char *ux_proto, const char *ux_name,
     }
     int rc = snprintf(ux_addr_s, capacity, "%s%c%s", ux_proto, PROTO_SEP,
 		      ux_name);
-    if (rc == capacity) {
+    if (rc >= capacity) {
 	errno = ENAMETOOLONG;
 	return -1;
     }
